@@ -73,7 +73,8 @@ type Record interface {
 
 // Add records the SAM record as having being located at the given chunk.
 func (i *Index) Add(r Record, bin uint32, c bgzf.Chunk, placed, mapped bool) error {
-	if !IsValidIndexPos(r.Start()) || !IsValidIndexPos(r.End()) {
+	// End is exclusive: the last base must be an indexable position.
+	if !IsValidIndexPos(r.Start()) || !IsValidIndexPos(r.End()-1) {
 		return errors.New("index: attempt to add record outside indexable range")
 	}
 
